@@ -105,6 +105,18 @@ fn grid() -> Vec<Case> {
             });
         }
     }
+    // buffered: the tail of a rotated file sits in the buffer when the rotation's cleanup runs
+    for naming in NG {
+        for clean in [CleanK::Log(1), CleanK::Gz(1), CleanK::LogGz(0, 1), CleanK::LogGz(1, 1)] {
+            let mut cfg = Cfg::rot(CritK::Size(LIMIT), naming, clean);
+            cfg.mode = ModeK::BufDont(64);
+            g.push(Case {
+                cfg,
+                depth_q: 4,
+                depth_t: 5,
+            });
+        }
+    }
     for naming in NG {
         for clean in [CleanK::Log(1), CleanK::Gz(2), CleanK::LogGz(1, 1)] {
             let mut cfg = Cfg::rot(CritK::Size(LIMIT), naming, clean);
@@ -301,7 +313,9 @@ fn run_history(c: &Case, word: &[HOp]) -> Result<(Vec<(usize, usize, usize)>, bo
     let env = Env::new("c07");
     env.enter();
     let mut h = Hist::new(&env, c.cfg.clone());
-    let sync = !c.cfg.mode.is_async() && !c.cfg.bg_cleanup;
+    let buffered = matches!(c.cfg.mode, ModeK::BufDont(_) | ModeK::BufFlush(..));
+    // (buffered: the current file on disk lags behind; judged at restarts and after shutdown)
+    let sync = !c.cfg.mode.is_async() && !c.cfg.bg_cleanup && !buffered;
     let mut prev: Option<View> = None;
     let mut shapes = Vec::new();
     let mut removed_or_compressed = false;
@@ -390,6 +404,8 @@ fn judge(c: &Case, word: &[HOp], case: Value) -> (Option<Violation>, Option<(Vec
     let ww = word.to_vec();
     let how = if c.cfg.mode.is_async() {
         "async"
+    } else if matches!(c.cfg.mode, ModeK::BufDont(_) | ModeK::BufFlush(..)) {
+        "buffered"
     } else if c.cfg.bg_cleanup {
         "background"
     } else {
